@@ -2,8 +2,8 @@
 protocol family agree row by row with the reviewed tables in spec/traces/C06.json (E4/E5)."""
 from ._tracebase import run_tables
 
-FLOOR_FNS = 11
-FLOOR_ROWS = 144
+FLOOR_FNS = 12
+FLOOR_ROWS = 106
 
 DECIDED = ["every parser's schedule (order, width, signedness, byte order, string decoder and delimiter, skip widths, guards and masks, "
            "key names, index positions, conversions) and the response field each value lands in equal the reviewed table; "
